@@ -225,17 +225,30 @@ fn probe_source(marker: &str, requires: &[&str]) -> String {
     for (i, r) in requires.iter().enumerate() {
         s.push_str(&format!("local m{} = require('{}')\n", i, r));
     }
-    s.push_str("do\n    return interp, floor, ifexp, root, field, sum, nothing, g1, g2, helper, attributed, attributed2, cfg2, constant\nend\neffect('unreachable')\n");
+    s.push_str("local function early() do return 1 end effect('unreachable') end\n");
+    s.push_str("return { interp, floor, ifexp, root, field, sum, nothing, g1, g2, helper, attributed, attributed2, cfg2, constant, early }\n");
     s
 }
 
 pub const PROBE_FILES: [&str; 3] = ["src/a.lua", "src/sub/a.lua", "src/sub/b.lua"];
+/// every source of the probe project (the last two are small: they make path and luau resolution differ)
+pub const PROBE_SOURCES: [&str; 5] = ["src/a.lua", "src/sub/a.lua", "src/sub/b.lua", "src/sub/init.lua", "src/b.lua"];
 
 fn probe_resources() -> Resources {
     let r = Resources::from_memory();
-    r.write("src/a.lua", &probe_source("A", &["./sub/b.lua", "./sub/a.lua"])).unwrap();
-    r.write("src/sub/a.lua", &probe_source("SA", &["./b.lua"])).unwrap();
-    r.write("src/sub/b.lua", &probe_source("SB", &["./a.lua"])).unwrap();
+    // acyclic: a -> sub/a -> sub/b; every probe also requires through the alias `@pkg` (.luaurc: ./lib; sample
+    // `sources`: ./lib2) and a module folder (init.lua vs index.lua)
+    r.write("src/a.lua", &probe_source("A", &["./sub/a.lua", "@pkg/m", "../lib/folder"])).unwrap();
+    r.write("src/sub/a.lua", &probe_source("SA", &["./b.lua", "@pkg/m", "../../lib/folder"])).unwrap();
+    r.write("src/sub/b.lua", &probe_source("SB", &["../../lib/m.lua", "@pkg/m", "../../lib/folder"])).unwrap();
+    // in path mode `./b.lua` is src/sub/b.lua, in luau mode (init file: relative to the parent) it is src/b.lua
+    r.write("src/sub/init.lua", "local m = require('./b.lua')\nreturn m\n").unwrap();
+    r.write("src/b.lua", "return 'SRC-B'\n").unwrap();
+    r.write("lib/m.lua", "return 'LIB-M'\n").unwrap();
+    r.write("lib2/m.lua", "return 'LIB2-M'\n").unwrap();
+    r.write("lib/folder/init.lua", "return 'FOLDER-INIT'\n").unwrap();
+    r.write("lib/folder/index.lua", "return 'FOLDER-INDEX'\n").unwrap();
+    r.write(".luaurc", "{\"aliases\": {\"pkg\": \"./lib\"}}").unwrap();
     r.write("header.txt", "FROM FILE").unwrap();
     r.write("header2.txt", "FROM FILE 2").unwrap();
     r
@@ -260,7 +273,7 @@ fn behaviour(config: Configuration) -> Result<(Vec<String>, String), String> {
         Ok(Ok(tree)) => {
             let mut errors: Vec<String> = tree.collect_errors().iter().map(|e| e.to_string()).collect();
             errors.sort();
-            for f in PROBE_FILES {
+            for f in PROBE_SOURCES {
                 let o = f.replacen("src/", "out/", 1);
                 outs.push(resources.get(&o).unwrap_or_else(|_| "!missing".to_string()));
             }
@@ -372,7 +385,7 @@ pub fn observe(id: &Value, t: &Value, text: &str, with_outputs: bool) -> Value {
 pub fn main(args: &[String]) -> i32 {
     // SAFETY: single-threaded at this point
     unsafe {
-        std::env::set_var(ENV_DEFINED, "from-env");
+        std::env::set_var(ENV_DEFINED, "true");
         std::env::remove_var(ENV_UNDEFINED);
     }
     let cases = read_ndjson(arg_value(args, "--cases").expect("--cases"));
